@@ -283,6 +283,9 @@ func fcollect(ctx int, s, H string, st fsite, k int) (decls []string, body []str
 }
 
 // genFresh: one program with nsec sections; section n uses site (first+n) mod len(fsites)
+// avoidEllipsisLit: set by the canary in main.go while finding C08-3 is present on the tree under test
+var avoidEllipsisLit bool
+
 func genFresh(r *vh.Rng, idx, first, nsec int) (*prog, []string) {
 	p := &prog{Kind: "fresh", Idx: idx}
 	T := elemKinds[r.Intn(len(elemKinds)-1)] // numeric
@@ -296,6 +299,9 @@ func genFresh(r *vh.Rng, idx, first, nsec int) (*prog, []string) {
 	fmt.Fprintf(&sb, "func %srun() {\n\tmark(0)\n", pre)
 	for n := 0; n < nsec; n++ {
 		st := fsites[(first+n)%len(fsites)]
+		if avoidEllipsisLit {
+			st.e = strings.Replace(st.e, "[...]$T{", "[3]$T{", 1) // known finding C08-3, see main.go
+		}
 		ctx := r.Intn(len(fctxNames))
 		k := 2 + r.Intn(3)
 		H := fcatType[st.cat]
